@@ -32,6 +32,11 @@ def search_inflection(failure):
             if not c.get('agree', True):
                 return {'request': {'op': 'binding_keys'}, 'result': c}
         return None
+    if failure.get('only_for'):
+        o = batch([{'op': 'binding_keys'}])[0]
+        for c in o.get('cases', []):
+            if not c.get('agree', True):
+                return {'request': {'op': 'binding_keys'}, 'result': c}
     parts = name.split('.')
     rules = list(RULES)
     poss = ['field', 'variant']
@@ -97,69 +102,133 @@ def run_history(steps, env_dir=None, features=()):
     return out
 
 
-def search_export_history(failure):
-    """C06/C05/C17: the final directory contents must depend only on the set of exported types."""
-    kinds = [('export',), ('export_all',), ('export_all_to', './bindings'), ('export_all_to', 'bindings/../bindings/')]
-    types = ['A', 'B']
-    base = run_history([['export_all_to', 'A', 'bindings'], ['export_all_to', 'B', 'bindings']])
-    want = base.get('files', {})
-    for k1 in kinds:
-        for k2 in kinds:
-            for order in (['A', 'B'], ['B', 'A']):
-                steps = [[k1[0], order[0]] + list(k1[1:]), [k2[0], order[1]] + list(k2[1:])]
-                got = run_history(steps)
-                if got.get('files') != want or any(r != 'ok' for r in got.get('results', [])):
-                    return {'request': {'op': 'export_history', 'steps': steps}, 'result': {'files': got.get('files'), 'results': got.get('results'), 'expected_files': want, 'agree': False}, 'kind': 'history'}
-    # the export directory spelled with a `..` segment (TS_RS_EXPORT_DIR), entry points mixed: still one file, both declarations
-    for k1 in (('export',), ('export_all',)):
-        for k2 in (('export',), ('export_all',)):
-            for order in (['A', 'B'], ['B', 'A']):
-                steps = [[k1[0], order[0]], [k2[0], order[1]]]
-                got = run_history(steps, env_dir='x/../bindings')
-                if got.get('files') != want or any(r != 'ok' for r in got.get('results', [])):
-                    return {'request': {'op': 'export_history', 'steps': steps, 'env_dir': 'x/../bindings'}, 'result': {'files': got.get('files'), 'results': got.get('results'), 'expected_files': want, 'agree': False}, 'kind': 'history'}
-    # a file left by an earlier run (longer than what is written now, with a declaration that no longer exists) is replaced, not patched
-    stale = (want.get('bindings/shared.ts') or '') + '\nexport type Gone = { a_long_field_name_to_make_the_old_file_longer: string, another_one: number, };\n'
-    for order in (['A', 'B'], ['B', 'A']):
-        steps = [['write', 'bindings/shared.ts', stale]] + [['export_all', t] for t in order]
+def _hist_subsearches():
+    """(properties the sub-search can speak for, thunk returning a witness or None)."""
+    subs = []
+    state = {}
+
+    def want():
+        if 'want' not in state:
+            state['want'] = run_history([['export_all_to', 'A', 'bindings'], ['export_all_to', 'B', 'bindings']]).get('files', {})
+        return state['want']
+
+    def mixed():
+        kinds = [('export',), ('export_all',), ('export_all_to', './bindings'), ('export_all_to', 'bindings/../bindings/')]
+        for k1 in kinds:
+            for k2 in kinds:
+                for order in (['A', 'B'], ['B', 'A']):
+                    steps = [[k1[0], order[0]] + list(k1[1:]), [k2[0], order[1]] + list(k2[1:])]
+                    got = run_history(steps)
+                    if got.get('files') != want() or any(r != 'ok' for r in got.get('results', [])):
+                        return {'request': {'op': 'export_history', 'steps': steps}, 'result': {'files': got.get('files'), 'results': got.get('results'), 'expected_files': want(), 'agree': False}, 'kind': 'history'}
+    subs.append((('C04', 'C05', 'C06'), mixed))
+
+    def envdir():
+        # the export directory spelled with a `..` segment (TS_RS_EXPORT_DIR), entry points mixed: still one file, both declarations
+        for k1 in (('export',), ('export_all',)):
+            for k2 in (('export',), ('export_all',)):
+                for order in (['A', 'B'], ['B', 'A']):
+                    steps = [[k1[0], order[0]], [k2[0], order[1]]]
+                    got = run_history(steps, env_dir='x/../bindings')
+                    if got.get('files') != want() or any(r != 'ok' for r in got.get('results', [])):
+                        return {'request': {'op': 'export_history', 'steps': steps, 'env_dir': 'x/../bindings'}, 'result': {'files': got.get('files'), 'results': got.get('results'), 'expected_files': want(), 'agree': False}, 'kind': 'history'}
+    subs.append((('C04', 'C05', 'C06'), envdir))
+
+    def stale():
+        # a file left by an earlier run (longer than what is written now, with a declaration that no longer exists) is replaced, not patched
+        st = (want().get('bindings/shared.ts') or '') + '\nexport type Gone = { a_long_field_name_to_make_the_old_file_longer: string, another_one: number, };\n'
+        for order in (['A', 'B'], ['B', 'A']):
+            steps = [['write', 'bindings/shared.ts', st]] + [['export_all', t] for t in order]
+            got = run_history(steps)
+            if got.get('files') != want():
+                return {'request': {'op': 'export_history', 'steps': steps}, 'result': {'files': got.get('files'), 'results': got.get('results'), 'expected_files': want(), 'agree': False,
+                        'note': 'the first export of a process starts the file afresh'}, 'kind': 'history'}
+    subs.append((('C04', 'C05'), stale))
+
+    def deps():
+        # types with dependencies: every order of the same calls must leave the same directory (C06), in particular
+        # export(T) before export_all(T) must not stop the dependencies from being exported
+        for h in ([['export', 'C'], ['export_all', 'C']], [['export', 'D'], ['export_all', 'D']], [['export', 'A'], ['export_all', 'C']],
+                  [['export_all_to', 'C', 'bindings'], ['export_all', 'D']], [['export_all', 'W1'], ['export_all', 'W2']], [['export', 'W2'], ['export', 'W1']]):
+            a = run_history(h)
+            b = run_history(list(reversed(h)))
+            if a.get('files') != b.get('files'):
+                return {'request': {'op': 'export_history', 'steps': h}, 'result': {'files': a.get('files'), 'results': a.get('results'),
+                        'expected_files': b.get('files'), 'agree': False, 'note': 'expected_files = same calls in reverse order'}, 'kind': 'history'}
+    subs.append((('C05', 'C06', 'C11', 'C13'), deps))
+
+    def import_lines():
+        # the import block of a file: one line per other file, names ascending and separated by `, `, specifier relative to the importing file
+        for root, f, lines in (('W2', 'bindings/views.ts', ['import type { P1, P3 } from "./deps";']),
+                               ('C', 'bindings/C.ts', ['import type { A, B } from "./shared";']),
+                               ('D', 'bindings/nested/dir/D.ts', ['import type { C } from "../../C";'])):
+            got = run_history([['export_all', root]])
+            txt = got.get('files', {}).get(f)
+            have = [l for l in (txt or '').split('\n') if l.startswith('import ')]
+            if txt is None or have != lines:
+                return {'request': {'op': 'export_history', 'steps': [['export_all', root]]}, 'result': {'files': got.get('files'), 'results': got.get('results'),
+                        'expected_import_lines': {f: lines}, 'agree': False}, 'kind': 'history-imports', 'file': f, 'lines': lines}
+    subs.append((('C04', 'C08', 'C13'), import_lines))
+
+    def reach():
+        # every exportable type reachable from the root gets its file, also when it is reachable only through the arguments of a
+        # type written without `<..>` (alias) or through a type argument of the root
+        for root, dep in (('AL', 'P1'), ('GR', 'P2'), ('C', 'A'), ('D', 'C')):
+            a = run_history([['export_all', root]])
+            b = run_history([['export_all', root], ['export_all', dep]])
+            if a.get('files') != b.get('files') or any(r != 'ok' for r in a.get('results', [])):
+                return {'request': {'op': 'export_history', 'steps': [['export_all', root]]}, 'result': {'files': a.get('files'), 'results': a.get('results'),
+                        'expected_files': b.get('files'), 'agree': False, 'note': f'expected_files = export_all({root}) followed by export_all({dep}): {dep} is reachable from {root}, so the second call must change nothing'}, 'kind': 'history'}
+    subs.append((('C11',), reach))
+
+    def docs():
+        # documented declarations sharing a file: every order gives notice + each type's own chunk once, in name order; a doc comment
+        # with a blank line, merged LAST, arrives intact (merging something after it is known finding D7a and is not searched here)
+        from driver import replay as _rp
+        for h, tys in (([['export_all', 'A'], ['export_all', 'M']], ['A', 'M']), ([['export_all', 'A'], ['export_all', 'N']], ['A', 'N']),
+                       ([['export_all', 'N'], ['export_all', 'A']], ['A', 'N']), ([['export_all', 'N'], ['export_all', 'B'], ['export_all', 'A']], ['A', 'B', 'N']),
+                       ([['export_all', 'B'], ['export_all', 'A'], ['export_all', 'N']], ['A', 'B', 'N'])):
+            got = run_history(h)
+            exp = _rp.expected_shared_file(tys)
+            act = got.get('files', {}).get('bindings/shared.ts')
+            if exp is not None and act != exp:
+                return {'request': {'op': 'export_history', 'steps': h}, 'result': {'files': got.get('files'), 'results': got.get('results'),
+                        'expected_files': {'bindings/shared.ts': exp}, 'agree': False, 'note': 'expected: notice, then each type\'s own chunk once, in name order'}, 'kind': 'history'}
+    subs.append((('C04', 'C05', 'C13', 'C15'), docs))
+
+    def faults():
+        # a failed export must not be recorded as done (C17): obstacle before one step, removed before the retry of that step
+        for first, second in (('A', 'B'), ('B', 'A')):
+            h = [['export_all', first], ['hide', 'bindings/shared.ts'], ['export_all', second], ['restore', 'bindings/shared.ts'], ['export_all', second]]
+            got = run_history(h)
+            res = got.get('results', [])
+            ok = len(res) == 5 and isinstance(res[2], dict) and 'err' in res[2] and res[4] == 'ok'
+            if not ok or got.get('files') != want():
+                return {'request': {'op': 'export_history', 'steps': h}, 'result': {'files': got.get('files'), 'results': res, 'expected_files': want(), 'agree': False,
+                        'note': 'step 3 must fail with an error (target is a directory), the retry (step 5) must succeed and leave both declarations'}, 'kind': 'history'}
+    subs.append((('C05', 'C17'), faults))
+
+    def again():
+        # repeated export is a no-op
+        steps = [['export_all', 'A'], ['export_all', 'B'], ['export', 'A'], ['export_all_to', 'B', './bindings']]
         got = run_history(steps)
-        if got.get('files') != want:
-            return {'request': {'op': 'export_history', 'steps': steps}, 'result': {'files': got.get('files'), 'results': got.get('results'), 'expected_files': want, 'agree': False,
-                    'note': 'the first export of a process starts the file afresh'}, 'kind': 'history'}
-    # types with dependencies: every order of the same calls must leave the same directory (C06), in particular
-    # export(T) before export_all(T) must not stop the dependencies from being exported
-    for h in ([['export', 'C'], ['export_all', 'C']], [['export', 'D'], ['export_all', 'D']], [['export', 'A'], ['export_all', 'C']],
-              [['export_all_to', 'C', 'bindings'], ['export_all', 'D']], [['export_all', 'W1'], ['export_all', 'W2']], [['export', 'W2'], ['export', 'W1']]):
-        a = run_history(h)
-        b = run_history(list(reversed(h)))
-        if a.get('files') != b.get('files'):
-            return {'request': {'op': 'export_history', 'steps': h}, 'result': {'files': a.get('files'), 'results': a.get('results'),
-                    'expected_files': b.get('files'), 'agree': False, 'note': 'expected_files = same calls in reverse order'}, 'kind': 'history'}
-    # a declaration whose doc comment contains a blank line, merged LAST into a shared file, must arrive intact (C15/C05);
-    # (merging something after it is known finding D7a and is not searched here)
-    from driver import replay as _rp
-    for h, tys in (([['export_all', 'A'], ['export_all', 'M']], ['A', 'M']), ([['export_all', 'B'], ['export_all', 'A'], ['export_all', 'Z']], None)):
-        if tys is None:
+        if got.get('files') != want():
+            return {'request': {'op': 'export_history', 'steps': steps}, 'result': {'files': got.get('files'), 'expected_files': want(), 'agree': False}, 'kind': 'history'}
+    subs.append((('C05',), again))
+    return subs
+
+
+def search_export_history(failure):
+    """C06/C05/C17: the final directory contents must depend only on the set of exported types. With `only_for` set (bounded
+    stand-in), only the sub-searches that speak for that property are run."""
+    only = failure.get('only_for')
+    for props, thunk in _hist_subsearches():
+        if only and only not in props:
             continue
-        got = run_history(h)
-        exp = _rp.expected_shared_file(tys)
-        act = got.get('files', {}).get('bindings/shared.ts')
-        if exp is not None and act != exp:
-            return {'request': {'op': 'export_history', 'steps': h}, 'result': {'files': got.get('files'), 'results': got.get('results'),
-                    'expected_files': {'bindings/shared.ts': exp}, 'agree': False, 'note': 'expected: notice, then each type\'s own chunk once, in name order'}, 'kind': 'history'}
-    # a failed export must not be recorded as done (C17): obstacle before one step, removed before the retry of that step
-    for first, second in (('A', 'B'), ('B', 'A')):
-        h = [['export_all', first], ['hide', 'bindings/shared.ts'], ['export_all', second], ['restore', 'bindings/shared.ts'], ['export_all', second]]
-        got = run_history(h)
-        res = got.get('results', [])
-        ok = len(res) == 5 and isinstance(res[2], dict) and 'err' in res[2] and res[4] == 'ok'
-        if not ok or got.get('files') != want:
-            return {'request': {'op': 'export_history', 'steps': h}, 'result': {'files': got.get('files'), 'results': res, 'expected_files': want, 'agree': False,
-                    'note': 'step 3 must fail with an error (target is a directory), the retry (step 5) must succeed and leave both declarations'}, 'kind': 'history'}
-    # repeated export is a no-op
-    got = run_history([['export_all', 'A'], ['export_all', 'B'], ['export', 'A'], ['export_all_to', 'B', './bindings']])
-    if got.get('files') != want:
-        return {'request': {'op': 'export_history', 'steps': 'A,B then A,B again'}, 'result': {'files': got.get('files'), 'expected_files': want, 'agree': False}, 'kind': 'history'}
+        w = thunk()
+        if w:
+            w['speaks_for'] = list(props)
+            return w
     return None
 
 
@@ -168,7 +237,13 @@ def search_lexical(failure):
     names = ['', 'a', '1a', 'a b', 'a"b', 'a\\b', 'a\nb', '"', '\\', 'é', '_', '$x', 'a-b'] + [s for s in strings(['a', '"', '\\', '1', ' '], 3)]
     docs = [[' a'], ['/ x'], [' a */ b'], [' **/*.rs'], [' x *'], ['*', '/'], [' a\n b */ c\n'], [' a\n*/'], ['/\n'], [' a *', '/ b'], []]
     docs += [[''.join(t)] for t in itertools.product(['*', '/', ' ', 'a', '\n'], repeat=3)]
+    docs += [[a, b] for a in (' a', ' a\n b', '', ' a\n') for b in (' c', ' c\n d', '')] + [[' a\n b', ' c', ' d']]
     reqs = [{'op': 'ts_field_name', 's': n} for n in names] + [{'op': 'parse_docs', 'docs': d} for d in docs]
+    only = failure.get('only_for')
+    if only == 'C15':
+        reqs = [r for r in reqs if r['op'] == 'parse_docs']
+    elif only and only != 'C04':
+        return None
     if 'field-name' in ob or 'quote' in ob:
         reqs = [r for r in reqs if r['op'] == 'ts_field_name']
     if 'C15' in ob or 'doc' in ob:
@@ -180,7 +255,27 @@ def search_lexical(failure):
     return None
 
 
-SEARCHERS = {'inflection': search_inflection, 'paths': search_paths, 'paths_esm': search_paths, 'export_chain': search_export_history, 'registry': search_export_history, 'lexical': search_lexical, 'recursion': search_export_history, 'merge': search_export_history, 'merge_imports': search_export_history}
+def search_attrs(failure):
+    """Attribute handling on the real derive: documented-incompatible combinations are errors and nothing panics (C16); a key given
+    in both spellings takes the ts value (C10); names of really derived types against serde_json's keys (C09 call sites)."""
+    ob = failure['obligation']
+    only = failure.get('only_for')
+    ops = []
+    if only == 'C16' or (not only and ('C16' in ob.split('.')[0] or 'rejects' in ob or 'valid' in ob)):
+        ops.append('derive_outcomes')
+    if only == 'C10' or (not only and 'C10' in ob.split('.')[0]):
+        ops.append('ts_wins')
+    if only == 'C09' or (not only and 'C09' in ob.split('.')[0]):
+        ops.append('binding_keys')
+    for op in ops:
+        o = batch([{'op': op}])[0]
+        for c in o.get('cases', []):
+            if not c.get('agree', True):
+                return {'request': {'op': op}, 'result': c}
+    return None
+
+
+SEARCHERS = {'inflection': search_inflection, 'paths': search_paths, 'paths_esm': search_paths, 'export_chain': search_export_history, 'registry': search_export_history, 'lexical': search_lexical, 'recursion': search_export_history, 'merge': search_export_history, 'merge_imports': search_export_history, 'deps': search_export_history, 'gen_imports': search_export_history, 'attrs': search_attrs, 'parsers': search_attrs}
 
 
 def search(pid, unit, failure, seed):
@@ -190,13 +285,34 @@ def search(pid, unit, failure, seed):
     return f(failure)
 
 
+# properties each searcher's oracle can speak for (bounded stand-in only)
+SPEAKS_FOR = {'search_attrs': ('C09', 'C10', 'C16'), 'search_inflection': ('C09', 'C16'), 'search_paths': ('C08', 'C17'), 'search_lexical': ('C04', 'C15'),
+              'search_export_history': ('C04', 'C05', 'C06', 'C11', 'C13', 'C15', 'C17')}
+
+
+def search_standin(pid, unit):
+    """Bounded stand-in for a unit the verifier could not take after a change: the same searches on the real code, restricted to
+    the oracles that speak for `pid`. Returns a witness or None."""
+    f = SEARCHERS.get(unit)
+    if not f or pid not in SPEAKS_FOR.get(f.__name__, ()):
+        return None
+    return f({'obligation': f'{pid}.bounded-stand-in', 'only_for': pid})
+
+
 def rerun(rec):
     w = rec['witness']
+    if w.get('kind') == 'history-imports':
+        got = run_history(w['request']['steps'])
+        txt = got.get('files', {}).get(w['file']) or ''
+        have = [l for l in txt.split('\n') if l.startswith('import ')]
+        print('replayed history on the current tree, import lines of', w['file'], ':', have, 'expected:', w['lines'])
+        return 1 if have != w['lines'] else 0
     if w.get('kind') == 'history':
         got = run_history(w['request']['steps'], env_dir=w['request'].get('env_dir')) if isinstance(w['request']['steps'], list) else {}
         want = w['result'].get('expected_files')
         print('replayed history on the current tree:', json.dumps(got.get('files'), ensure_ascii=False)[:600])
         return 1 if got.get('files') != want else 0
     o = batch([w['request']], tuple(w.get('features', ())))[0]
-    print('replayed on the current tree:', json.dumps(o, ensure_ascii=False)[:3000])
+    bad = [c for c in o.get('cases', []) if not c.get('agree', True)]
+    print('replayed on the current tree:', json.dumps(bad if o.get('cases') is not None else o, ensure_ascii=False)[:3000])
     return 1 if not o.get('agree', True) else 0
